@@ -364,6 +364,18 @@ fn main() {
     if !f.is_fn && rules.iter().any(|r| r == "R10pub") {
         // widen field visibility of an extracted struct (Verus treats a struct with private
         // fields as opaque in contracts); visibility has no run-time meaning
+        if let Ok(en) = syn::parse_str::<syn::ItemEnum>(&work) {
+            if let syn::Visibility::Restricted(r) = &en.vis {
+                let rg = range_of(r);
+                work = apply_edits(&work, vec![Edit { range: rg, rep: "pub".into(), rule: "R10pub".into() }]);
+            }
+        }
+        if let Ok(st) = syn::parse_str::<syn::ItemStruct>(&work) {
+            if let syn::Visibility::Restricted(r) = &st.vis {
+                let rg = range_of(r);
+                work = apply_edits(&work, vec![Edit { range: rg, rep: "pub".into(), rule: "R10pub".into() }]);
+            }
+        }
         if let Ok(st) = syn::parse_str::<syn::ItemStruct>(&work) {
             let mut edits = Vec::new();
             for fld in st.fields.iter() {
